@@ -160,6 +160,55 @@ fn template(server: bool, which: usize) -> (Vec<PeerOp>, usize) {
     (ops, nreq)
 }
 
+/// A HEADERS frame whose (valid QPACK) field section has `n` field lines on top of the message head: `shape` 0 = one-byte
+/// indexed static lines (`accept: */*`), 1 = the head's own pseudo-header line repeated, 2 = literal lines with `n`
+/// distinct names. Sizes around the limits of the containers an implementation may collect fields in are the point.
+fn big_section(server: bool, trailers: bool, n: usize, shape: u8) -> Vec<u8> {
+    use crate::reference::qpack as rq;
+    let mut block = Vec::new();
+    rq::put_prefix(&mut block, 0, 0);
+    if !trailers {
+        let head: Vec<rq::Field> = if server {
+            vec![(b":method".to_vec(), b"POST".to_vec()), (b":scheme".to_vec(), b"https".to_vec()), (b":authority".to_vec(), b"example.com".to_vec()), (b":path".to_vec(), b"/".to_vec())]
+        } else {
+            vec![(b":status".to_vec(), b"200".to_vec())]
+        };
+        for f in &head {
+            rq::put_field(&mut block, f, rq::Spelling::Indexed { which: 0, redundant: 0 });
+        }
+    }
+    match shape {
+        0 => block.extend(std::iter::repeat(0xc0 | 29).take(n)),
+        1 => block.extend(std::iter::repeat(if trailers { 0xc0 | 29 } else if server { 0xc0 | 20 } else { 0xc0 | 25 }).take(n)),
+        _ => {
+            for i in 0..n {
+                let name = format!("x{i:x}");
+                rq::put_field(&mut block, &(name.into_bytes(), b"1".to_vec()), rq::Spelling::Literal { never_index: false, huff_name: false, huff_value: false, redundant: 0 });
+            }
+        }
+    }
+    rf::frame(rf::T_HEADERS, &block)
+}
+
+/// (n, shape) pairs of the large-section family
+const BIG: [(usize, u8); 9] = [(1000, 0), (24576, 0), (24577, 0), (32768, 0), (32769, 1), (24577, 1), (24577, 2), (32768, 2), (32769, 2)];
+
+fn big_script(server: bool, trailers: bool, n: usize, shape: u8) -> (Vec<PeerOp>, usize) {
+    let mut ops = vec![PeerOp::OpenUni(0), PeerOp::Write(0, peer::control_preamble(&[]))];
+    if server {
+        ops.push(PeerOp::OpenBidi(1));
+    } else {
+        ops.extend([PeerOp::Barrier, PeerOp::Adopt(1, 0)]);
+    }
+    if trailers {
+        ops.push(PeerOp::Write(1, if server { peer::post_request_headers() } else { peer::simple_response_headers("200") }));
+        ops.push(PeerOp::Write(1, peer::data_frame(b"body")));
+    }
+    ops.push(PeerOp::Write(1, big_section(server, trailers, n, shape)));
+    ops.push(PeerOp::Fin(1));
+    (ops, 1)
+}
+
 fn stream_keys(ops: &[PeerOp]) -> Vec<usize> {
     let mut k = Vec::new();
     for o in ops {
@@ -389,6 +438,19 @@ fn exhaustive(ctx: &mut Ctx, shard: usize, nshards: usize) -> Verdict {
                         }
                     }
                 }
+            }
+        }
+    }
+    // large field sections
+    for server in [true, false] {
+        for trailers in [false, true] {
+            for (n, shape) in BIG {
+                idx += 1;
+                if idx % nshards != shard {
+                    continue;
+                }
+                let (ops, nreq) = big_script(server, trailers, n, shape);
+                run_script(&Script { server, ops, close_epilogue: if n % 2 == 0 { None } else { Some(0x100) }, timeout_epilogue: false, style: Style::Eager, nreq, label: "large_field_section", uni_frozen: false }, &[], ctx)?;
             }
         }
     }
